@@ -74,7 +74,8 @@ def run(ctx):
         raise vlib.MachineryError("non-vacuity: BlankCounts did not violate LayoutInvariant")
     total_r, total_lex, total_tok = 0, 0, 0
     for family, n, k in (("flow", 800 if thorough else 60, 8 if thorough else 4), ("flowbig", 400 if thorough else 40, 8 if thorough else 4),
-                         ("expr", 500 if thorough else 40, 6 if thorough else 4), ("tiny", 1500 if thorough else 60, 4)):
+                         ("expr", 500 if thorough else 40, 6 if thorough else 4), ("tiny", 1500 if thorough else 60, 4),
+                         ("huge", 60 if thorough else 6, 4)):
         stats, nlex, ntok, cases = ast_part(ctx, family, n, k)
         total_r += stats["renderings"]
         total_lex += nlex
